@@ -1,10 +1,8 @@
 (* Model of Pbox.add / sub / mul / div under the four dependency assumptions (pbox_abc.py). *)
 From Coq Require Import List Bool ZArith Arith.
-From PUN Require Import Base.Num Base.Sort Model.Interval Model.Pbox.
+From PUN Require Import Base.Num Base.Sort Model.Interval Model.Pbox Gen.GenGlue.
+From PUN Require Export Model.PboxBase.
 Import ListNotations.
-
-Inductive dep := DF | DP | DO | DI.
-Definition swap_po (d : dep) : dep := match d with DP => DO | DO => DP | _ => d end.
 
 Section A.
 Variable N : Num.
@@ -20,64 +18,25 @@ Definition padd (d : dep) (p q : pb) : res pb :=
 Definition psub (d : dep) (p q : pb) : res pb :=
   rbind (pneg N steps p_lo p_hi q) (fun nq => padd (swap_po d) p nq).
 
-(* p-box states used by the routing of the Frechet product *)
-Definition p_lo_ (p : pb) : N := nth0 N (fst p) 0.
-Definition p_hi_ (p : pb) : N := lastn N (snd p).
-Definition straddles_zero (p : pb) : bool :=
-  nltb N (minl N (fst p)) nzero && nltb N nzero (maxl N (snd p)).
+Notation p_lo_ := (PboxBase.p_lo_ N).
+Notation p_hi_ := (PboxBase.p_hi_ N).
+Notation straddles_zero := (PboxBase.straddles_zero N).
 Definition classic_mul (p q : pb) : res pb :=
   let '(l, r) := frechet_op N (nmul N) (fst p) (snd p) (fst q) (snd q) in mk l r.
-(* frechet_pbox_mul without the zero-straddling route (operands of one sign each) *)
-Definition frechet_mul_signed (p q : pb) : res pb :=
-  if nleb N (p_hi_ p) nzero || nleb N (p_hi_ q) nzero then
-    let nx := nleb N (p_hi_ p) nzero in let ny := nleb N (p_hi_ q) nzero in
-    rbind (if nx then pneg N steps p_lo p_hi p else Ok p) (fun a =>
-    rbind (if ny then pneg N steps p_lo p_hi q else Ok q) (fun b =>
-    rbind (classic_mul a b) (fun r => if xorb nx ny then pneg N steps p_lo p_hi r else Ok r)))
-  else classic_mul p q.
 Definition classic_add (p q : pb) : res pb :=
   let '(l, r) := frechet_op N (nadd N) (fst p) (snd p) (fst q) (snd q) in mk l r.
-(* vectorised_naive_frechet_pbox: the n lowest lower products and the n highest upper products of the n*n step pairs *)
-Definition naive_mul (p q : pb) : res pb :=
-  let '(l, r) := naive_frechet_op N (nmul N) (fst p) (snd p) (fst q) (snd q) in mk l r.
-(* Pbox.balchprod(self = p, other = q), as reached from straddle_frechet_pbox (q straddles zero):
-   shift the straddling operand(s) to start at zero, multiply the shifted non-negative parts, add the cross terms back *)
-Definition balchprod (p q : pb) : res pb :=
-  if straddles_zero p && straddles_zero q then
-    let x0 := p_lo_ p in let y0 := p_lo_ q in
-    rbind (pnum N steps p_lo p_hi (nsub N) p x0) (fun xx0 =>
-    rbind (pnum N steps p_lo p_hi (nsub N) q y0) (fun yy0 =>
-    rbind (frechet_mul_signed xx0 yy0) (fun a =>
-    rbind (pnum N steps p_lo p_hi (nmul N) xx0 y0) (fun b1 =>
-    rbind (pnum N steps p_lo p_hi (nmul N) yy0 x0) (fun b2 =>
-    rbind (classic_add b1 b2) (fun b =>
-    rbind (classic_add a b) (fun r => pnum N steps p_lo p_hi (nadd N) r (nmul N x0 y0))))))))
-  else if straddles_zero p then NotImpl         (* not reachable from the product: the straddling operand is always passed second *)
-  else if straddles_zero q then
-    let y0 := p_lo_ q in
-    rbind (pnum N steps p_lo p_hi (nsub N) q y0) (fun yy0 =>
-    rbind (frechet_mul_signed p yy0) (fun a =>
-    rbind (pnum N steps p_lo p_hi (nmul N) p y0) (fun b => classic_add a b)))
-  else frechet_mul_signed p q.
-(* straddle_frechet_pbox(x, y): imposition of the naive bound and the Balch product *)
-Definition straddle_mul (p q : pb) : res pb :=
-  rbind (naive_mul p q) (fun nv => rbind (balchprod p q) (fun bp => pimp N steps p_lo p_hi nv bp)).
-(* frechet_pbox_mul *)
-Definition frechet_mul (p q : pb) : res pb :=
-  if straddles_zero p || straddles_zero q then
-    (if straddles_zero q then straddle_mul p q else straddle_mul q p)
-  else frechet_mul_signed p q.
+(* frechet_pbox_mul, nagative_frechet_pbox, straddle_frechet_pbox (naive bound, Balch product, imposition) and Staircase.balchprod are the
+   functions TRANSLATED from pba/pbox_abc.py on every run (Gen/GenGlue.v).  They call each other recursively (the Balch product multiplies
+   shifted, non-negative operands); the translation carries explicit fuel, and four levels are more than any call chain needs. *)
+Definition mul_fuel : nat := 4.
+Definition frechet_mul (p q : pb) : res pb := gen_frechet_pbox_mul N steps p_lo p_hi mul_fuel p q.
 Definition pmul (d : dep) (p q : pb) : res pb :=
   match d with
   | DF => frechet_mul p q
   | _ => let '(l, r) := dep_op d (nmul N) (fst p) (snd p) (fst q) (snd q) in mk l r
   end.
-(* 1 / q  =  q.__rtruediv__(1) = 1 * q.reciprocal() : reciprocal, then the number template with c = 1 *)
-Definition one_over (q : pb) : res pb :=
-  match rbind (precip N steps p_lo p_hi q) (fun rq => pnum N steps p_lo p_hi (nmul N) rq none) with
-  | Ok r => Ok r
-  | _ => Raise TypeErr      (* __rtruediv__: any exception => NotImplemented => TypeError *)
-  end.
+(* 1 / q  =  q.__rtruediv__(1) *)
+Definition one_over (q : pb) : res pb := prdiv N steps p_lo p_hi none q.
 Definition pdiv (d : dep) (p q : pb) : res pb :=
   rbind (one_over q) (fun rq => pmul (swap_po d) p rq).
 End A.
